@@ -906,6 +906,8 @@ class Super:
         if k in ("ref", "rawptr"):
             return E_ref(self.resolve_place(ctx, r["place"]))
         if k == "bin":
+            if r.get("float"):
+                return ("bin", r["op"], self.resolve_op(ctx, r["a"]), self.resolve_op(ctx, r["b"]), "float")
             return ("bin", r["op"], self.resolve_op(ctx, r["a"]), self.resolve_op(ctx, r["b"]))
         if k == "un":
             return ("un", r["op"], self.resolve_op(ctx, r["a"]))
@@ -1321,7 +1323,8 @@ def _lit_bool(e, truth):
         if e[0] == "bin" and e[1] in NEG:
             op, a, b = e[1], e[2], e[3]
             if not truth:
-                if _is_float(a) or _is_float(b):
+                if len(e) > 4 and e[4] == "float":
+                    # floats: not(a <= b) is not (a > b) when a NaN is involved; keep the polarity
                     return [(("cmp", op, a, b), False)]
                 op = NEG[op]
             # canonical operand order: constants to the right, else lexicographic by repr
